@@ -157,12 +157,15 @@ type c16Rec struct {
 }
 
 type c16Data struct {
-	Configured   bool `json:"configured"`
-	Retain       bool `json:"retain"`
-	ClientErrors bool `json:"client_errors"`
-	DirectOnly   bool `json:"direct_only,omitempty"`
-	SlowClient   bool `json:"slow_client,omitempty"`
-	Reapplied    bool `json:"second_configuration,omitempty"`
+	Configured   bool  `json:"configured"`
+	Retain       bool  `json:"retain"`
+	ClientErrors bool  `json:"client_errors"`
+	DirectOnly   bool  `json:"direct_only,omitempty"`
+	SlowClient   bool  `json:"slow_client,omitempty"`
+	Reapplied    bool  `json:"second_configuration,omitempty"`
+	Wait2        int64 `json:"wait_after_reload,omitempty"` // waiting time set by a reload at runtime (0 = unchanged)
+	ReconfCall   int64 `json:"reload_call,omitempty"`
+	ReconfRet    int64 `json:"reload_return,omitempty"`
 	stalls       int
 	MaxBuf       int        `json:"max_buffer_size"`
 	WaitMs       int64      `json:"max_wait_time"`
@@ -396,12 +399,31 @@ func c16Body(configured bool) func(rc *RunCtx) {
 			// backlog of the moment); records already accepted stay accepted
 			at := simrt.ChooseF(int(d.WaitMs) + 30)
 			newSize := []int{1, 2, 3, 10, 1000}[simrt.ChooseF(5)]
+			// ... or, in half of these runs, the waiting time is shortened instead (while the
+			// sender may be in the middle of handing a batch to a slow client)
+			newWait := d.WaitMs
+			if simrt.ChanceF(1, 2) {
+				newSize = d.QueueSize
+				for _, w := range []int64{2000, 200, 50, 20} {
+					if w < d.WaitMs {
+						newWait = w
+						break
+					}
+				}
+			}
 			tk := simrt.GoNamed("reconfig", func() {
 				simrt.Sleep(time.Duration(at) * time.Millisecond)
-				simrt.Fault("reconfig_queue_size")
+				if newWait != d.WaitMs {
+					simrt.Fault("reconfig_shorter_wait")
+					d.Wait2 = newWait
+				} else {
+					simrt.Fault("reconfig_queue_size")
+				}
+				d.ReconfCall = simrt.Stamp()
 				inst.ApplyConfig(&stubConf{m: map[string]string{
-					"max_buffer_size": strconv.Itoa(d.MaxBuf), "max_wait_time": strconv.FormatInt(d.WaitMs, 10),
+					"max_buffer_size": strconv.Itoa(d.MaxBuf), "max_wait_time": strconv.FormatInt(newWait, 10),
 					"logsink_zip_min_size": strconv.Itoa(d.ZipMin), "logsink_queue_size": strconv.Itoa(newSize)}})
+				d.ReconfRet = simrt.Stamp()
 			})
 			tasks = append(tasks, tk)
 		}
@@ -482,6 +504,23 @@ func c16After(rc *RunCtx, res *simrt.Result) {
 	viol := func(oracle, msg string) {
 		rc.Violate("C16", oracle, oracle+":"+mode, fmt.Sprintf("%s | settings: buffer=%d wait=%dms zipmin=%d queue=%d retain=%v cancel@%dms", msg, d.MaxBuf, d.WaitMs, d.ZipMin, d.QueueSize, d.Retain, d.CancelMs))
 	}
+	// waiting times that may have been in force when a pack was handed over at stamp st: the
+	// original one unless the hand-over began after the reload returned, the reloaded one
+	// unless it happened before the reload began
+	waitLoHi := func(st int64) (lo, hi int64) {
+		lo, hi = d.WaitMs, d.WaitMs
+		if d.Wait2 != 0 && d.ReconfCall != 0 {
+			if st > d.ReconfCall {
+				lo = d.Wait2 // shorter
+			}
+			if d.ReconfRet != 0 && st > d.ReconfRet {
+				// the loop may still be inside a poll it started under the old setting; records
+				// buffered before the reload were judged under it
+				hi = d.WaitMs
+			}
+		}
+		return
+	}
 	var h uint64 = 1469598103934665603
 	emitted := map[int]int{}
 	var queueOrder, directOrder []int
@@ -529,7 +568,7 @@ func c16After(rc *RunCtx, res *simrt.Result) {
 						viol("late-flush-size", fmt.Sprintf("pack #%d: buffer reached %d >= limit %d after record %d but %d more records were appended", e.Seq, cum, d.MaxBuf, ids[i], len(ids)-1-i))
 						break
 					}
-					if i > 0 && times[0] != 0 && times[i]-times[0] >= d.WaitMs {
+					if _, hi := waitLoHi(e.Stamp); i > 0 && times[0] != 0 && times[i]-times[0] >= hi {
 						viol("late-flush-age", fmt.Sprintf("pack #%d: record %d is %d ms younger than the first buffered record (wait %d ms) but the batch was not flushed at its append", e.Seq, ids[i], times[i]-times[0], d.WaitMs))
 						break
 					}
@@ -537,9 +576,10 @@ func c16After(rc *RunCtx, res *simrt.Result) {
 			}
 			last := len(ids) - 1
 			bySize := cum >= d.MaxBuf
-			byAge := last > 0 && times[0] != 0 && times[last]-times[0] >= d.WaitMs
+			wlo, _ := waitLoHi(e.Stamp)
+			byAge := last > 0 && times[0] != 0 && times[last]-times[0] >= wlo
 			lastRec := d.byID[ids[last]]
-			byIdle := lastRec != nil && e.AtMs-lastRec.AddMs >= d.WaitMs-2
+			byIdle := lastRec != nil && e.AtMs-lastRec.AddMs >= wlo-2
 			byCancel := d.CancelStamp != 0 && e.Stamp > d.CancelStamp
 			switch {
 			case bySize:
